@@ -4,6 +4,8 @@
 cd "$(dirname "$0")/.."
 for d in seeded/C*/; do
   id=$(basename "$d"); p=${id:0:3}
+  # a breakage that is caught by a neighbouring property's check says so in its meta.json
+  alt=$(python3 -c "import json,sys; print(json.load(open('$d/meta.json')).get('caught_by_check_of',''))" 2>/dev/null); [ -n "$alt" ] && p=$alt
   [ -s "$d/patch.diff" ] || continue
   out=$(tools/mutant.sh "$d/patch.diff" "$p" quick 2>&1); rc=$?
   keys=$(echo "$out" | grep -oE "key=[^ ]+" | sort -u | head -3 | tr '\n' ' ')
